@@ -135,6 +135,67 @@ pub fn run_iter(text: &str, ty: &Ty, cfg: &Cfg) -> String {
 
 const FIELD_NAMES: [&str; 6] = ["a", "b", "c", "k", "x", "m"];
 const VARIANTS: [&str; 5] = ["A", "B", "Cee", "custom", "k"];
+/// field / variant names that read as a bool / number / null when written plain
+const LOOKALIKE_NAMES: [&str; 5] = ["true", "1", "~", "null", "1.5"];
+
+thread_local! {
+    /// distribution of the identifier-key forms written by the generators (drained into the sink by `generate`)
+    static IDENT_STATS: std::cell::RefCell<std::collections::BTreeMap<String, u64>> = const { std::cell::RefCell::new(std::collections::BTreeMap::new()) };
+}
+fn ident_count(k: &str) {
+    IDENT_STATS.with(|s| *s.borrow_mut().entry(k.to_string()).or_insert(0) += 1);
+}
+
+fn b64(bytes: &[u8]) -> String {
+    const T: &[u8; 64] = b"ABCDEFGHIJKLMNOPQRSTUVWXYZabcdefghijklmnopqrstuvwxyz0123456789+/";
+    let mut out = String::new();
+    for ch in bytes.chunks(3) {
+        let n = (ch[0] as u32) << 16 | (*ch.get(1).unwrap_or(&0) as u32) << 8 | *ch.get(2).unwrap_or(&0) as u32;
+        out.push(T[(n >> 18) as usize & 63] as char);
+        out.push(T[(n >> 12) as usize & 63] as char);
+        out.push(if ch.len() > 1 { T[(n >> 6) as usize & 63] as char } else { '=' });
+        out.push(if ch.len() > 2 { T[n as usize & 63] as char } else { '=' });
+    }
+    out
+}
+
+/// The key node written for a struct field / `{Variant: payload}` name (`deserialize_identifier` =
+/// `deserialize_str` for fields): mostly the plain name; regularly (always when `force`) `!!str name`,
+/// `!!binary <base64 of name>`, `!!binary name`, a tag that cannot be read as a string (`!!int name`, ...),
+/// or the quoted name. Look-alike names (`true`, `1`, `~`, ...) written plain are the `no_schema` /
+/// null cases.
+fn ident_key(rng: &mut Rng, name: &str, force: bool) -> GNode {
+    let mk = |text: &str, style: u8, tag: Option<&str>| GNode::Scalar { text: text.to_string(), style, anchor: None, tag: tag.map(|t| t.to_string()) };
+    let r = if force { rng.below(6) } else { rng.below(24) };
+    let (kind, node) = match r {
+        0 => ("str_tag", mk(name, *rng.pick(&[0u8, 0, 1, 2]), Some("!!str"))),
+        1 => ("binary_b64", mk(&b64(name.as_bytes()), *rng.pick(&[0u8, 0, 2]), Some("!!binary"))),
+        2 => ("binary_raw", mk(name, 0, Some("!!binary"))),
+        3 => ("nonstring_tag", mk(name, *rng.pick(&[0u8, 0, 1]), Some(*rng.pick(&["!!int", "!!null", "!!bool", "!!float", "!!timestamp"])))),
+        4 => ("other_tag", mk(name, 0, Some(*rng.pick(&["!", "!custom", "!A"])))),
+        5 => ("quoted", mk(name, *rng.pick(&[1u8, 2]), None)),
+        _ => ("plain", sc(name)),
+    };
+    ident_count(&format!("ident.{kind}{}", if LOOKALIKE_NAMES.contains(&name) { ".lookalike" } else { "" }));
+    node
+}
+
+/// an entry whose key is not a field name, in a form that matters to the identifier reader
+fn unknown_ident_key(rng: &mut Rng) -> GNode {
+    let mk = |text: &str, style: u8, tag: Option<&str>| GNode::Scalar { text: text.to_string(), style, anchor: None, tag: tag.map(|t| t.to_string()) };
+    ident_count("ident.unknown_exotic");
+    match rng.below(9) {
+        0 => mk("1", 0, Some("!!int")),
+        1 => sc("true"),
+        2 => sc("1"),
+        3 => sc("~"),
+        4 => mk("YQ==", 0, Some("!!binary")),
+        5 => mk("zz", 0, Some("!!str")),
+        6 => mk("x", 0, Some("!!null")),
+        7 => mk("/w==", 0, Some("!!binary")),
+        _ => mk("null", *rng.pick(&[0u8, 1, 2]), None),
+    }
+}
 
 pub fn gen_ty(rng: &mut Rng, depth: usize) -> Ty {
     let leaf = depth >= 3 || rng.chance(2, 5);
@@ -159,13 +220,14 @@ pub fn gen_ty(rng: &mut Rng, depth: usize) -> Ty {
         5 | 6 => {
             let n = 1 + rng.below(4);
             let mut names: Vec<&'static str> = FIELD_NAMES.to_vec();
-            let fs = (0..n).map(|_| { let i = rng.below(names.len()); (names.remove(i), gen_ty(rng, depth + 1)) }).collect();
+            let mut fs: Vec<(&'static str, Ty)> = (0..n).map(|_| { let i = rng.below(names.len()); (names.remove(i), gen_ty(rng, depth + 1)) }).collect();
+            if rng.chance(1, 6) { let i = rng.below(fs.len()); fs[i].0 = *rng.pick(&LOOKALIKE_NAMES); }
             Ty::Struct(fs, rng.chance(1, 4))
         }
         7 => {
             let n = 1 + rng.below(4);
             let mut names: Vec<&'static str> = VARIANTS.to_vec();
-            let vs = (0..n).map(|_| {
+            let mut vs: Vec<(&'static str, VTy)> = (0..n).map(|_| {
                 let i = rng.below(names.len());
                 let vt = match rng.below(4) {
                     0 => VTy::Unit,
@@ -175,6 +237,7 @@ pub fn gen_ty(rng: &mut Rng, depth: usize) -> Ty {
                 };
                 (names.remove(i), vt)
             }).collect();
+            if rng.chance(1, 8) { let i = rng.below(vs.len()); vs[i].0 = *rng.pick(&LOOKALIKE_NAMES); }
             Ty::Enum(*rng.pick(&["E", "custom", "A"]), vs)
         }
         _ => Ty::Newtype(Box::new(gen_ty(rng, depth + 1))),
@@ -215,7 +278,7 @@ pub fn gen_value(rng: &mut Rng, ty: &Ty, depth: usize) -> GNode {
             GNode::Map { anchor: None, tag: None, entries, flow: rng.chance(1, 2) }
         }
         Ty::Struct(fs, _) => {
-            let mut entries: Vec<(GNode, GNode)> = fs.iter().map(|(n, t)| (sc(n), gen_value(rng, t, depth + 1))).collect();
+            let mut entries: Vec<(GNode, GNode)> = fs.iter().map(|(n, t)| (ident_key(rng, n, false), gen_value(rng, t, depth + 1))).collect();
             if rng.chance(1, 3) && entries.len() > 1 { let i = rng.below(entries.len()); let e = entries.remove(i); entries.push(e); }
             GNode::Map { anchor: None, tag: None, entries, flow: rng.chance(1, 2) }
         }
@@ -225,10 +288,10 @@ pub fn gen_value(rng: &mut Rng, ty: &Ty, depth: usize) -> GNode {
                 VTy::Unit => None,
                 VTy::Newtype(t) => Some(gen_value(rng, t, depth + 1)),
                 VTy::Tuple(ts) => Some(GNode::Seq { anchor: None, tag: None, items: ts.iter().map(|t| gen_value(rng, t, depth + 1)).collect(), flow: true }),
-                VTy::Struct(fs) => Some(GNode::Map { anchor: None, tag: None, entries: fs.iter().map(|(n, t)| (sc(n), gen_value(rng, t, depth + 1))).collect(), flow: true }),
+                VTy::Struct(fs) => Some(GNode::Map { anchor: None, tag: None, entries: fs.iter().map(|(n, t)| (ident_key(rng, n, false), gen_value(rng, t, depth + 1))).collect(), flow: true }),
             };
             match payload {
-                None => if rng.chance(1, 3) { GNode::Map { anchor: None, tag: None, entries: vec![(sc(name), sc("~"))], flow: true } } else { sc(name) },
+                None => if rng.chance(1, 3) { GNode::Map { anchor: None, tag: None, entries: vec![(ident_key(rng, name, false), sc("~"))], flow: true } } else { sc(name) },
                 Some(p) => {
                     // `{Variant: payload}` or `!Variant payload`
                     if rng.chance(1, 3) {
@@ -238,7 +301,7 @@ pub fn gen_value(rng: &mut Rng, ty: &Ty, depth: usize) -> GNode {
                             other => GNode::Map { anchor: None, tag: None, entries: vec![(sc(name), other)], flow: true },
                         }
                     } else {
-                        GNode::Map { anchor: None, tag: None, entries: vec![(sc(name), p)], flow: rng.chance(1, 2) }
+                        GNode::Map { anchor: None, tag: None, entries: vec![(ident_key(rng, name, false), p)], flow: rng.chance(1, 2) }
                     }
                 }
             }
@@ -291,6 +354,12 @@ fn mutate(rng: &mut Rng, n: &mut GNode, depth: usize) {
                     entries.insert(rng.below(entries.len() + 1), (sc("<<"), GNode::Map { anchor: None, tag: None, entries: vec![e], flow: true }));
                 }
                 5 => { *n = sc("~"); return; }
+                // the key of an entry in another notation (tag, `!!binary`, quotes): same or different identifier
+                6 if !entries.is_empty() => {
+                    let i = rng.below(entries.len());
+                    if let GNode::Scalar { text, .. } = &entries[i].0 { let t = text.clone(); ident_count("ident.mutated_key"); entries[i].0 = ident_key(rng, &t, true); }
+                }
+                7 => { let at = rng.below(entries.len() + 1); entries.insert(at, (unknown_ident_key(rng), sc("1"))); }
                 _ => {}
             }
             if let GNode::Map { entries, .. } = n { if !entries.is_empty() && depth < 3 { let i = rng.below(entries.len()); mutate(rng, &mut entries[i].1, depth + 1); } }
@@ -448,9 +517,27 @@ fn corpus() -> Vec<(Ty, String)> {
     v
 }
 
+/// struct field identifiers in every notation (finding: `deserialize_str` = `deserialize_string` on scalars since
+/// 7f69297): run under default options and under `no_schema` / `ignore_binary_tag_for_string`
+fn ident_corpus() -> Vec<(Ty, String)> {
+    let i32t = || Ty::Int(true, 32);
+    let opt = || Ty::Option(Box::new(i32t()));
+    let mut v: Vec<(Ty, String)> = Vec::new();
+    for t in ["{a: 1}", "{!!str a: 1}", "{!!binary YQ==: 1}", "{!!binary a: 1}", "{!!binary /w==: 1}", "{!!int a: 1}", "{!!null a: 1}", "{! a: 1}", "{!custom a: 1}",
+              "{'a': 1}", "{true: 1}", "{'true': 1}", "{!!str true: 1}", "{1: 1}", "{\"1\": 1}", "{~: 1}", "{'~': 1}", "{!!str ~: 1}", "{null: 1}", "{!!str : 1}",
+              "{a: 1, !!binary YQ==: 2}", "{!!int 1: 1}", "{zz: 1, !!float x: 2}", "true: 1\n", "!!binary YQ==: 1\n"] {
+        for deny in [false, true] {
+            v.push((Ty::Struct(vec![("a", opt()), ("true", opt()), ("1", opt()), ("~", opt())], deny), t.to_string()));
+        }
+        v.push((Ty::Enum("E", vec![("a", VTy::Newtype(i32t())), ("true", VTy::Newtype(i32t())), ("1", VTy::Struct(vec![("a", opt())]))]), t.to_string()));
+    }
+    v
+}
+
 fn generate(a: &Args, name: &str, family: u8) -> i32 {
     let mut rng = Rng::new(a.seed ^ (family as u64) << 32);
     let mut sink = Sink::new(&a.out, name);
+    IDENT_STATS.with(|s| s.borrow_mut().clear());
     if family == 0 || family == 3 {
         for (ty, text) in corpus() {
             for dup in 0..3u8 {
@@ -458,6 +545,17 @@ fn generate(a: &Args, name: &str, family: u8) -> i32 {
                 let (items, _, _) = crate::pump::items_tokens(&text);
                 let ans = run_single(&text, &ty, &cfg);
                 sink.count("corpus");
+                sink.case(&format!("e2e single {} {} | {}", cfg.tokens(false), ty.tokens(), items), &ans);
+            }
+        }
+    }
+    if family == 0 || family == 3 {
+        for (ty, text) in ident_corpus() {
+            for (no_schema, ignore_binary) in [(false, false), (true, false), (false, true)] {
+                let cfg = Cfg { dup: 0, legacy_octal: false, strict_bool: false, ignore_binary, no_schema, budget: Some(Budget::default()), limits: AliasLimits::default() };
+                let (items, _, _) = crate::pump::items_tokens(&text);
+                let ans = run_single(&text, &ty, &cfg);
+                sink.count("corpus.ident");
                 sink.case(&format!("e2e single {} {} | {}", cfg.tokens(false), ty.tokens(), items), &ans);
             }
         }
@@ -525,9 +623,10 @@ fn generate(a: &Args, name: &str, family: u8) -> i32 {
         }
     }
     let nt = sink.stats.get("distinct_nontrivial").copied().unwrap_or(0);
+    for (k, v) in IDENT_STATS.with(|s| std::mem::take(&mut *s.borrow_mut())) { *sink.stats.entry(k).or_insert(0) += v; }
     sink.finish(&a.out, name, serde_json::json!({
         "distinct_nontrivial": nt,
-        "rule": "generated (type description, document, options) triples: the document is generated FROM the type (mostly matching), then perturbed half of the time (surplus/missing elements, wrong kind, unknown field, duplicate entry, null for a container, tags, anchors+aliases, entries moved into merge sources); families: general (also untyped target and multi-document/iterator variants), merge-key documents (inline maps, aliases, sequences, nested merges, colliding own keys, invalid merge values, quoted/tagged <<), duplicate-key documents (scalar/sequence/mapping keys, quoted vs plain, tagged, null-like) x 3 policies. Implementation = with_deserializer_from_str_with_options / from_multiple_with_options / read_with_options with a DeserializeSeed that issues the derive calls; model = pump + typed deserializer + entry protocol on the real parser's items. Compared: value tree or error kind + location (+ definition location for alias errors). Non-trivial = distinct (type, item stream) with more than 4 events.",
+        "rule": "generated (type description, document, options) triples: the document is generated FROM the type (mostly matching), then perturbed half of the time (surplus/missing elements, wrong kind, unknown field, duplicate entry, null for a container, tags, anchors+aliases, entries moved into merge sources, a key rewritten in another notation, an unknown key that is tagged / a look-alike); struct field and `{Variant: payload}` keys are written plain 3 times out of 4 and otherwise as `!!str name`, `!!binary <base64 of name>`, `!!binary name`, `!!int name` (and other non-string tags), `! name` / `!custom name`, or quoted, and 1 struct in 6 / 1 enum in 8 has a field / variant named `true`, `1`, `~`, `null` or `1.5` (plain look-alike keys under no_schema and default options) - counted as ident.<form>[.lookalike]; families: general (also untyped target and multi-document/iterator variants), merge-key documents (inline maps, aliases, sequences, nested merges, colliding own keys, invalid merge values, quoted/tagged <<), duplicate-key documents (scalar/sequence/mapping keys, quoted vs plain, tagged, null-like) x 3 policies. Implementation = with_deserializer_from_str_with_options / from_multiple_with_options / read_with_options with a DeserializeSeed that issues the derive calls; model = pump + typed deserializer + entry protocol on the real parser's items. Compared: value tree or error kind + location (+ definition location for alias errors). Non-trivial = distinct (type, item stream) with more than 4 events.",
     }));
     0
 }
